@@ -13,3 +13,12 @@ def run(ctx):
     ctx.rule("R9", "special hosts (kept as one stem): SPECIAL_HOSTS_RE accepts exactly localhost / dotted quads (optional port) / colon-bearing hex literals as whole strings")
     from .common_url import rule_special_hosts
     rule_special_hosts(ctx, "R9")
+    from . import common_state as ST
+    ST.rule_fresh_results(ctx, "R10", [
+        ("lru.serialization", "unserialize_lru", ["s:http|h:fr|h:lemonde|p:a|p:b|"]),
+        ("lru.serialization", "unserialize_lru", ["s:https|t:8080|h:com|h:a|"]),
+        ("lru.stems", "lru_stems", ["http://lemonde.fr/a/b?q=1#f"]),
+        ("lru.conversion", "lru_to_url", ["s:http|h:fr|h:lemonde|p:a|"]),
+        ("utils", "pathsplit", ["/a/b/c"]),
+    ])
+    ST.rule_one_shot_iterators(ctx, "R11")
